@@ -648,6 +648,13 @@ def gen_tables(mod: ast.Module) -> List[str]:
                 tuples = [[_str_const(x) for x in t.elts] for t in it.elts if isinstance(t, ast.Tuple)]
                 if ast.unparse(node.key).replace(" ", "") != f"len({ast.unparse(node.generators[0].target)})":
                     raise TranslationError("arn_split: field_names is not keyed by len(names)")
+        if isinstance(node, ast.Dict) and node.keys and all(isinstance(v, ast.Tuple) for v in node.values) and tuples is None:
+            # the table written out: {5: (...), 6: (...)} - every key must be the length of its tuple
+            ts = [[_str_const(x) for x in t.elts] for t in node.values]
+            for k, t in zip(node.keys, ts):
+                if not (isinstance(k, ast.Constant) and k.value == len(t)):
+                    raise TranslationError("arn_split: field_names entry not keyed by the length of its tuple")
+            tuples = ts
         if isinstance(node, ast.Call) and isinstance(node.func, ast.Attribute) and node.func.attr == "split" \
                 and ast.unparse(node.func.value) == "arn" and len(node.args) == 1:
             sep = _str_const(node.args[0])
@@ -667,7 +674,11 @@ def gen_tables(mod: ast.Module) -> List[str]:
     keys = []
     for node in ast.walk(mk):
         if isinstance(node, ast.Call) and isinstance(node.func, ast.Attribute) and node.func.attr in ("split", "rsplit"):
-            a = node.args
+            a = list(node.args)
+            if len(a) == 1 and len(node.keywords) == 1 and node.keywords[0].arg == "maxsplit":
+                a.append(node.keywords[0].value)
+            elif node.keywords:
+                raise TranslationError("marked_key: split call shape")
             if len(a) == 2 and isinstance(a[1], ast.Constant):
                 splits.append((node.lineno, node.col_offset, node.func.attr, _str_const(a[0]), a[1].value))
                 if isinstance(node.func.value, ast.Call) and isinstance(node.func.value.func, ast.Attribute) \
